@@ -8,8 +8,8 @@
    the closed forms (graph and io-map equality whenever the model returns), so `C09_unroll_partial` and
    `C09_sequential_unroll_partial` are about the models themselves.  Inside the guards the model returns (`C09_total`) and its
    result is lint-clean, so `C09_unroll` is the unroll clause of the property about the API-level model with nothing left to the
-   per-case oracle.  Not proved, decided per case by Run_C09.agree/holds: for sequential circuits that the model returns,
-   and the step from the stripped circuit to the flop circuit itself (`C09_sequential_unroll_full`). *)
+   per-case oracle.  Not proved, decided per case by Run_C09.agree/holds: for sequential circuits
+   the step from the stripped circuit to the flop circuit itself (`C09_sequential_unroll_full`). *)
 From stdpp Require Import strings gmap sets fin_sets.
 From CG Require Import Base.Oracle Model.Unroll Model.Lint Proofs.UnrollProofs Proofs.UnrollLink Proofs.UnrollTotal Proofs.UnrollModelTotal.
 Open Scope string_scope.
@@ -146,6 +146,21 @@ Theorem C09_unroll : ∀ C n sio prefix,
         m !! o ≫= (.!! t) = Some (io_name o prefix t) ∧ w (io_name o prefix t) = run (c_g C) sio t st ins o.
 Proof. exact unroll_correct. Qed.
 Print Assumptions C09_unroll.
+
+(* sequential_unroll about the model, given that the stripping succeeds (seq_stripped = Ok: no name clash of <inst>_<pin>, D/Q pins
+   exist): the model RETURNS, and what it returns simulates the stripped circuit cycle by cycle *)
+Theorem C09_sequential_unroll_model : ∀ C n d q ign afo iv ru prefix CS sio,
+  seq_stripped C d q ign ru = Ok (CS, sio) →
+  lint_clean CS → c_bbs CS = ∅ → closed (c_g CS) → acyclic (c_g CS) → plain (c_g CS) → valid_names (c_g CS) → free_are_inputs (c_g CS) →
+  1 ≤ n → sio_ok (c_g CS) sio → unroll_names_ok (c_g CS) n sio prefix → iv_ok C iv → iv_addable iv →
+  ∃ U m, sequential_unroll C n d q ign afo iv ru prefix = Ok (U, m) ∧ dom m = io_of (c_g CS) ∧
+    ∀ w, consistent (c_g U) w →
+      let st := λ v, w (io_name v prefix 0) in
+      let ins := λ t i, w (io_name i prefix t) in
+      ∀ o t, o ∈ io_of (c_g CS) → t < n →
+        m !! o ≫= (.!! t) = Some (io_name o prefix t) ∧ w (io_name o prefix t) = run (c_g CS) sio t st ins o.
+Proof. exact seq_correct. Qed.
+Print Assumptions C09_sequential_unroll_model.
 
 (* --- what is NOT proved (visible; decided per case by Run_C09) --- *)
 (* the closed form passes lint, hence so does whatever `unroll` returns *)
